@@ -451,6 +451,180 @@ def d5(ctx, prog):
     return n
 
 
+def d6(ctx, prog):
+    """window statistics as functions of a symbolic window (sa.ratfun, algebraic value numbering): with one window x_0..x_2 (and a
+    pattern y_0..y_2) and `moving_sum` / `moving_mean` / `correlate(valid)` read as the window sum / mean / dot product,
+       moving_var = E[(x-m)^2]          moving_std = sqrt(var)          moving_skew = E[(x-m)^3] / var^(3/2)
+       moving_kurtosis = E[(x-m)^4] / var^2 - 3
+       correlation = Pearson r(x, y)    distance = sqrt(sum (x-y)^2)    bcdc = sqrt(var(x-y)) / sqrt(var(x+y))
+    each compared with what the function computes by cross-multiplication of polynomial normal forms of the squares, plus the sign
+    of the leading term.  (|.| under a square root is read as the identity: the reference value is a sum of squares.)"""
+    from .. import ratfun as rf
+    Poly, RF = rf.Poly, rf.RF
+    K = 3
+    xs = [Poly.sym(f'x{i}') for i in range(K)]
+    ys = [Poly.sym(f'y{i}') for i in range(K)]
+    kc = Poly.const(K)
+    one = Poly.const(1)
+
+    def mean(ps):
+        out = ps[0]
+        for p_ in ps[1:]:
+            out = out + p_
+        return RF(out, kc)
+
+    def central(k):
+        m = mean(xs)
+        tot = RF(Poly.const(0))
+        for x in xs:
+            d = RF(x).add(m, -1)
+            t = RF(one)
+            for _ in range(k):
+                t = t.mul(d)
+            tot = tot.add(t)
+        return tot.mul(RF(kc), -1)
+    var = central(2)
+    sq = rf.Eval({}).sqrt
+    refs = {}
+    refs['moving_var'] = (var, None)
+    refs['moving_std'] = (sq(var), None)
+    refs['moving_skew'] = (central(3).mul(var.mul(sq(var)), -1), 'x0')
+    refs['moving_kurtosis'] = (central(4).mul(var.mul(var), -1).add(RF(Poly.const(3)), -1), None)
+    mx, my = mean(xs), mean(ys)
+    cov = RF(Poly.const(0))
+    vx = RF(Poly.const(0))
+    vy = RF(Poly.const(0))
+    dist2 = RF(Poly.const(0))
+    for x, y in zip(xs, ys):
+        dx, dy = RF(x).add(mx, -1), RF(y).add(my, -1)
+        cov, vx, vy = cov.add(dx.mul(dy)), vx.add(dx.mul(dx)), vy.add(dy.mul(dy))
+        dist2 = dist2.add(RF(x - y).mul(RF(x - y)))
+    refs['correlation'] = (cov.mul(sq(vx).mul(sq(vy)), -1), 'x0')
+
+    def var_of(ps):
+        m = mean(ps)
+        tot = RF(Poly.const(0))
+        for p_ in ps:
+            d = RF(p_).add(m, -1)
+            tot = tot.add(d.mul(d))
+        return tot.mul(RF(kc), -1)
+    refs['distance'] = (sq(dist2), None)
+    refs['bcdc'] = (sq(var_of([x - y for x, y in zip(xs, ys)])).mul(sq(var_of([x + y for x, y in zip(xs, ys)])), -1), None)
+
+    from .. import symtensor
+    np = symtensor.np
+    if np is None:
+        ctx.undecided('C19-D6', 'scared.signal_processing::formulas', 'numpy is not available to the analysis interpreter')
+        return 0
+    Q = rf.Q
+
+    def vec(prefix):
+        v = np.empty(K, dtype=object)
+        for i in range(K):
+            v[i] = Q.sym(f'{prefix}{i}')
+        return v
+
+    def total(a):
+        return a.sum() if isinstance(a, np.ndarray) else a
+    summaries = {
+        'moving_sum': lambda a, k: total(a[0] if a else k['data']),
+        'moving_mean': lambda a, k: total(a[0] if a else k['data']) / K,
+        'correlate': lambda a, k: (a[0] * a[1]).sum(),
+        'convolve': lambda a, k: (a[0] * a[1][::-1]).sum(),
+        'abs': lambda a, k: a[0], 'absolute': lambda a, k: a[0], 'fabs': lambda a, k: a[0],          # |.| of a sum of squares
+        'cast_array': lambda a, k: a[0] if a else k['array'],
+        '_check_and_cast_args': lambda a, k: tuple(a) if a else (k['trace'], k['pattern']),
+        '_moving_argument_check': lambda a, k: None,
+    }
+    pts = [{'x0': 1, 'x1': 2, 'x2': 5, 'y0': 1, 'y1': 3, 'y2': 8}, {'x0': 7, 'x1': 2, 'x2': 3, 'y0': 2, 'y1': 9, 'y2': 4}, {'x0': 1, 'x1': 9, 'x2': 2, 'y0': 5, 'y1': 1, 'y2': 2}]
+    n = 0
+    for modname, names in (('scared.signal_processing.moving_operators', ('moving_var', 'moving_std', 'moving_skew', 'moving_kurtosis')),
+                           ('scared.signal_processing.pattern_detection', ('correlation', 'distance', 'bcdc'))):
+        for name in names:
+            f = prog.need_func(modname, name)
+            key = f'{f.key}::formula'
+            n += 1
+            ref, lead = refs[name]
+            te = symtensor.TensorEval(prog, None, {})
+            te.summaries = dict(summaries)
+            bind = {f.params[0]: vec('x')}
+            if modname.endswith('pattern_detection'):
+                bind[f.params[1]] = vec('y')
+            else:
+                bind[f.params[1]] = K
+                if len(f.params) > 2:
+                    bind[f.params[2]] = -1
+            try:
+                v = te.run(f, bind)
+                if isinstance(v, np.ndarray):
+                    if v.size != 1:
+                        raise rf.Unknown('the window axis is not reduced')
+                    v = v.reshape(-1)[0]
+                if not isinstance(v, Q):
+                    raise rf.Unknown('no symbolic value returned')
+                ok, why = rf.same_function(v.rf, ref, pts)
+                ctx.check(ok, 'C19-D6', key, f'what {name} computes for a window is not its definition: {why}', f'{name} equals its windowed definition as a function of the window samples (normal forms)', f.where())
+            except rf.Unknown as e:
+                ctx.undecided('C19-D6', key, f'formula not derivable: {e}', f.where())
+    return n
+
+
+def d7(ctx, prog):
+    """moving_sum on symbolic signals (sa.symtensor): for a 1-D signal of 5 samples and a 2 x 4 array, every window size and axis, the
+    value returned must hold exactly the sums of the windows of consecutive samples along the axis (window 1: the samples
+    themselves); `pad` is read as "zeros of the target shape with the array placed at the offsets", `cast_array` as the identity."""
+    from .. import symtensor, ratfun
+    f = prog.need_func('scared.signal_processing.moving_operators', 'moving_sum')
+    key = f'{f.key}::window sums'
+    np = symtensor.np
+    if np is None:
+        ctx.undecided('C19-D7', key, 'numpy is not available to the analysis interpreter', f.where())
+        return 0
+
+    def pad(args, kw):
+        arr, shape = args[0], args[1]
+        offs = args[2] if len(args) > 2 else kw.get('offsets')
+        out = np.empty(tuple(int(x) for x in shape), dtype=object)
+        out[...] = ratfun.Q.const(0)
+        sl = tuple(slice(int(o), int(o) + d) for o, d in zip(offs if offs is not None else [0] * arr.ndim, arr.shape))
+        out[sl] = arr
+        return out
+    n = 0
+    bad = None
+    try:
+        for shape in ((5,), (2, 4)):
+            data = np.empty(shape, dtype=object)
+            for idx in np.ndindex(*shape):
+                data[idx] = ratfun.Q.sym('x' + ''.join(map(str, idx)))
+            for axis in range(-len(shape), len(shape)):
+                L = shape[axis]
+                for w in range(1, L + 1):
+                    te = symtensor.TensorEval(prog, None, {})
+                    te.summaries = {'pad': pad, 'cast_array': lambda a, k: a[0]}
+                    got = te.run(f, {f.params[0]: data.copy(), f.params[1]: w, f.params[2]: axis})
+                    n += 1
+                    moved = np.moveaxis(data, axis, -1)
+                    want = np.empty(moved.shape[:-1] + (L - w + 1,), dtype=object)
+                    for idx in np.ndindex(*want.shape):
+                        tot = ratfun.Q.const(0)
+                        for k in range(w):
+                            tot = tot + moved[idx[:-1] + (idx[-1] + k,)]
+                        want[idx] = tot
+                    want = np.moveaxis(want, -1, axis)
+                    if not isinstance(got, np.ndarray) or got.shape != want.shape:
+                        bad = bad or f'shape {shape}, window {w}, axis {axis}: result of shape {getattr(got, "shape", None)}, expected {want.shape}'
+                        continue
+                    for idx in np.ndindex(*want.shape):
+                        g_ = got[idx]
+                        g_ = g_ if isinstance(g_, ratfun.Q) else ratfun.Q.lift(g_)
+                        if not g_.same(want[idx]) and bad is None:
+                            bad = f'shape {shape}, window {w}, axis {axis}: entry {idx} is not the sum of the {w} samples starting there along the axis'
+        ctx.check(bad is None, 'C19-D7', key, f'{bad}', f'{n} (shape, axis, window) cases: every entry is the sum of its window', f.where(), cases=n)
+    except ratfun.Unknown as e:
+        ctx.undecided('C19-D7', key, f'moving_sum not evaluable: {e}', f.where())
+    return n
+
+
 def run(ctx, prog):
     ctx.rule('C19-D1', 'peak filter: candidate positions never overwritten, no possibly-negative sentinel used as position/index, returns a selection of the candidates')
     ctx.rule('C19-D2', 'powers/products of array parameters happen after the float64 cast')
@@ -463,5 +637,9 @@ def run(ctx, prog):
     ctx.rule('C19-D4', 'axis-parameter discipline: axis-wise operations receive the axis parameter, or a literal axis k of an array into which the requested axis was moved')
     ctx.floor('axis-wise operations judged', d4(ctx, prog), 2)
     ctx.floor('in-place effects judged', n3, 2)
+    ctx.rule('C19-D7', 'moving_sum returns the window sums along the requested axis for every window size (symbolic 1-D and 2-D signals)')
+    ctx.floor('moving_sum cases evaluated', d7(ctx, prog), 15)
+    ctx.rule('C19-D6', 'algebraic value numbering of the window statistics (var, std, skew, kurtosis, correlation, distance, bcdc) over a symbolic window, moving_sum / moving_mean / correlate read as window sum / mean / dot product')
+    ctx.floor('window statistics compared with their definitions', d6(ctx, prog), 7)
     ctx.rule('C19-D5', 'find_width brackets its runs with the samples at or below (POSITIVE) / at or above (NEGATIVE) the threshold: truth table over direction x position relative to the threshold x threshold sign')
     ctx.floor('find_width bounding-sample cases', d5(ctx, prog), 18)
